@@ -128,9 +128,11 @@ def mixedchain():
     from rockit import GeometricGrid, UniformGrid
     res = []
     coef = [(1.0, 0.5), (-3.0, 1.25)]
-    for N in (2, 3):
+    from rockit import FreeTime
+    for N, free in ((2, False), (3, False), (2, True), (3, True)):
         for grid in (UniformGrid(), GeometricGrid(2)):
-            ocp = Ocp(t0=0.5, T=2.0)
+            # (free: the horizon is a decision variable guessed at 2; the guess lives on the guessed time grid)
+            ocp = Ocp(t0=0.5, T=FreeTime(2.0) if free else 2.0)
             p = ocp.state(2); v = ocp.state(); a = ocp.control(); w = ocp.control()
             ocp.set_der(p, ca.vertcat(v, w)); ocp.set_der(v, a)
             ocp.add_objective(ocp.sum(a ** 2 + w ** 2))
@@ -145,7 +147,7 @@ def mixedchain():
             for i_, (c1, c0) in enumerate(coef):
                 want = c1 * tv + c0
                 ok = np.allclose(pv[i_], want, atol=1e-9)
-                res.append(('C10.spline:start:p%d' % (i_ + 1), 'ok' if ok else 'mismatch', 'N=%d %s: starting trajectory %s, guess %s' % (N, type(grid).__name__, np.round(pv[i_], 6).tolist(), np.round(want, 6).tolist())))
+                res.append(('C10.spline:start:p%d' % (i_ + 1), 'ok' if ok else 'mismatch', 'N=%d %s%s: starting trajectory %s, guess %s' % (N, type(grid).__name__, ' free T' if free else '', np.round(pv[i_], 6).tolist(), np.round(want, 6).tolist())))
     return res
 
 
